@@ -522,7 +522,17 @@ def replay(path):
     if name == "csv":
         ok, cols = csv_equal_columns(s)
         print("columns per record:", cols)
-        return 0 if ok else 1
+        if ok:
+            return 0
+        # the text is invalid CSV: it is a failing input iff the current grammar + constraint accept it
+        try:
+            t = DerivationTree.from_parse_tree(next(EarleyParser(csvf.CSV_GRAMMAR).parse(s)))
+            verdict = bool(evaluate(csvf.CSV_COLNO_PROPERTY, t, csvf.CSV_GRAMMAR).is_true())
+        except Exception as e:  # noqa
+            print("not accepted by the current CSV grammar:", type(e).__name__)
+            return 0
+        print("constraint verdict on the current tree:", verdict)
+        return 1 if verdict else 0
     if name == "xml":
         why = check_xml(s)
     elif name == "simple_tar":
